@@ -257,6 +257,12 @@ def run_chunk(chunk):
     for n1, n2 in itertools.product(range(6), repeat=2):
         for s1 in range(4):
             _do(res, {'ilog': il, 'names': [n1, n2, n1], 'shapes': [s1, (s1 + 1) % 4, 1], 'dup': True})
+    if il == 1:
+        # file route: every byte value in the first dump line (its text column may look like format punctuation)
+        for v in range(256):
+            raw = (bytes([v, 0x11, v, 0x22]) * 4 + bytes([v]) * 5 + buf('INFO', 'entry', 1)).hex()
+            for fmt in (0, 1):
+                _do(res, {'raw': raw, 'file': True, 'fmt': fmt, 'pad': bool(v % 2), 'upper': bool(v % 3)})
     if il == 0:
         _do(res, {'raw': ''})
         _do(res, {'raw': '', 'file': True, 'fmt': 0, 'pad': True, 'upper': True})
